@@ -91,7 +91,7 @@ P = D.DesignProperty(
     "C07", judge,
     rule=("case = generated design spec accepted by the constructor and by both samplers; both are exhausted (designs too large for that: 6 RandomGen sequences are checked for membership in the formula); non-trivial = "
           "both sets have >= 2 sequences and the design has a derived factor or a constraint; distinct = distinct spec JSON"),
-    cfg_quick=CFG, n_quick=80, n_thorough=700, case_limit=(25, 180),
+    cfg_quick=CFG, n_quick=80, n_thorough=400, case_limit=(25, 180),
     limits={"max_T": {"quick": 7, "thorough": 9}, "max_seqs": {"quick": 300, "thorough": 2500},
             "max_models": {"quick": 1500, "thorough": 10000}, "real_loop": {"quick": 40, "thorough": 150},
             "max_T_membership": {"quick": 14, "thorough": 20}},
